@@ -102,6 +102,10 @@ let rec expr_of (x : sx) : expr =
   | L [ A "fld" ] -> EField
   | L (A "send" :: r :: A nm :: args) -> ESend (expr_of r, nat_of_int (int_of_string nm), List.map expr_of args)
   | L (A "list" :: es) -> EList (List.map expr_of es)
+  | L [ A "range"; A o; a; b ] ->
+      let op = (match o with "cc" -> RClosed | "co" -> RRightOpen | "oc" -> RLeftOpen | "oo" -> ROpen
+                | s -> failwith ("rop " ^ s)) in
+      ERange (op, expr_of a, expr_of b)
   | _ -> failwith "expr"
 
 let rec stmt_of (x : sx) : stmt =
